@@ -203,7 +203,7 @@ CHECKS = {
     },
     "C03": {
         "groups": [
-            {"pkg": "Havoc/pkg/common/parser", "entries": ["H_c03_int", "H_c03_bytes"]},
+            {"pkg": "Havoc/pkg/common/parser", "entries": ["H_c03_int", "H_c03_bytes", "H_c03_field_sequence"]},
             {"pkg": "Havoc/pkg/common/parser", "entries": ["H_c03_canread"], "shards": 8},
             {"pkg": "Havoc/pkg/common", "entries": ["H_c03_utf16", "H_c03_stripnull"]},
             {"pkg": "Havoc/pkg/agent", "with": AGENT_WITH, "entries": ["H_c03_register"], "shards": 3},
